@@ -556,6 +556,37 @@ for _c in ('default', 'fimi', 'csv'):
 
 
 # =====================================================================================================================
+# concepts/matrices.py
+
+def _relation_repr(path, rec):
+    first, second = _marker('self[0]'), _marker('self[1]')
+    this = ObjV('Relation', {'__class__': _class_of('Relation')}, name='self')
+
+    def getitem(p, args, kw):
+        (_, i) = args
+        from z3 import simplify
+        t = i.t if not isinstance(i, IntV) or isinstance(i.t, int) else simplify(i.t)
+        if not isinstance(i, IntV) or not isinstance(t, int) and not hasattr(t, 'as_long'):
+            raise Unsupported('Relation.__repr__: symbolic index')
+        k = t if isinstance(t, int) else t.as_long()
+        if k not in (0, 1, -1, -2):
+            raise Unsupported('Relation.__repr__: index outside the pair')
+        return (first, second)[k]
+    this.fields['__getitem__'] = FuncV('tuple.__getitem__', getitem)
+    cn = this.fields['__class__'].fields['__name__']
+
+    def check(path, outcome, rec):
+        return [('the-documented-text', BoolVal(_no_exc(outcome) and not rec.calls
+                                                and text_is(outcome[1], ['<', (cn, None), '(', (first, 'r'), ', ', (second, 'r'), ')>'])))]
+    return {'self': this}, {}, check
+
+
+register(Unit('matrices.Relation.__repr__', 'concepts/matrices.py', 'Relation.__repr__', _unit(_relation_repr),
+              assumptions=["f-string rendering of a value is the builtin's; self[0], self[1] are the two vector tuples stored by Relation.__new__ (unit matrices.Relation.__new__)"],
+              linkage=[('concepts.matrices.Relation.__repr__', None)]))
+
+
+# =====================================================================================================================
 # concepts/junctors.py
 
 def _rel_init(kind):
